@@ -12,9 +12,9 @@
      The right-hand side has remaining + 1 bytes unless it is clipped by the end of the buffer, that is unless
      _last_read_count = buffer_size.  A slice assignment of a different length resizes the bytearray, and a
      bytearray with an exported memoryview (self._view) cannot be resized: BufferError.  The model makes that the
-     explicit outcome [PFault BufferErr]; the refinement theorem shows that it arises only when the abstract reader
+     explicit outcome [PyFault BufferErr]; the refinement theorem shows that it arises only when the abstract reader
      is at end-of-input, so it replaces an EOFError and never a value.
-   - reads past _last_read_count (stale bytes of the bytearray) are the explicit [PFault PStale]; proved unreachable. *)
+   - reads past _last_read_count (stale bytes of the bytearray) are the explicit [PyFault PStale]; proved unreachable. *)
 From Coq Require Import List NArith ZArith Bool.
 From YV Require Import Base.Wire Model.CodedCpp.
 Import ListNotations.
@@ -22,13 +22,13 @@ Open Scope N_scope.
 
 Inductive pfault := BufferErr | PStale | POutOfFuel.
 
-Inductive pres (A : Type) :=
-| POk (a : A)
-| PEof                 (* EOFError("Unexpected EOF") *)
-| PFault (f : pfault).
-Arguments POk {A} a.
-Arguments PEof {A}.
-Arguments PFault {A} f.
+Inductive pyres (A : Type) :=
+| PyOk (a : A)
+| PyEof                 (* EOFError("Unexpected EOF") *)
+| PyFault (f : pfault).
+Arguments PyOk {A} a.
+Arguments PyEof {A}.
+Arguments PyFault {A} f.
 
 Record pin := mkPin {
   pavail : list N;    (* _buffer[_offset : _last_read_count] *)
@@ -46,103 +46,103 @@ Section WithBuf.
 Variable bufsize : nat.
 
 (* _fill_buffer(min_count) *)
-Definition pfill (min_count : nat) (s : pin) : pres pin * pin :=
+Definition pfill (min_count : nat) (s : pin) : pyres pin * pin :=
   let rem := length (pavail s) in
-  if Nat.ltb 0 rem && Nat.ltb (pcnt s) bufsize then (PFault BufferErr, s)
+  if Nat.ltb 0 rem && Nat.ltb (pcnt s) bufsize then (PyFault BufferErr, s)
   else
     let k := Nat.min (bufsize - rem) (length (punder s)) in
     let s' := mkPin (pavail s ++ firstn k (punder s)) (skipn k (punder s)) (rem + k) in
-    if Nat.ltb 0 min_count && Nat.ltb (rem + k) min_count then (PEof, s') else (POk s', s').
+    if Nat.ltb 0 min_count && Nat.ltb (rem + k) min_count then (PyEof, s') else (PyOk s', s').
 
 (* read_byte *)
-Definition pfetch (s : pin) : pres N * pin :=
+Definition pfetch (s : pin) : pyres N * pin :=
   match pavail s with
-  | b :: r => (POk b, mkPin r (punder s) (pcnt s))
+  | b :: r => (PyOk b, mkPin r (punder s) (pcnt s))
   | [] =>
       match pfill 1 s with
-      | (POk s1, _) =>
+      | (PyOk s1, _) =>
           match pavail s1 with
-          | b :: r => (POk b, mkPin r (punder s1) (pcnt s1))
-          | [] => (PFault PStale, s1)
+          | b :: r => (PyOk b, mkPin r (punder s1) (pcnt s1))
+          | [] => (PyFault PStale, s1)
           end
-      | (PEof, s1) => (PEof, s1)
-      | (PFault f, s1) => (PFault f, s1)
+      | (PyEof, s1) => (PyEof, s1)
+      | (PyFault f, s1) => (PyFault f, s1)
       end
   end.
 
 (* read_unsigned_varint: result |= (byte & 0x7F) << shift, unbounded integers, no limit on the number of bytes *)
-Fixpoint pvar (fuel : nat) (s : pin) (result shift : N) : pres N * pin :=
+Fixpoint pvar (fuel : nat) (s : pin) (result shift : N) : pyres N * pin :=
   match fuel with
-  | O => (PFault POutOfFuel, s)
+  | O => (PyFault POutOfFuel, s)
   | S f =>
       match pfetch s with
-      | (POk b, s1) =>
+      | (PyOk b, s1) =>
           let r := result + (b mod 128) * 2 ^ shift in
-          if b <? 128 then (POk r, s1) else pvar f s1 r (shift + 7)
-      | (PEof, s1) => (PEof, s1)
-      | (PFault x, s1) => (PFault x, s1)
+          if b <? 128 then (PyOk r, s1) else pvar f s1 r (shift + 7)
+      | (PyEof, s1) => (PyEof, s1)
+      | (PyFault x, s1) => (PyFault x, s1)
       end
   end.
 
 Definition pfuel_of (s : pin) : nat := S (length (pavail s) + length (punder s)).
 
 (* formatter.unpack_from(self._buffer, self._offset) *)
-Definition punpack (k : nat) (s : pin) : pres N * pin :=
-  if Nat.ltb (length (pavail s)) k then (PFault PStale, s)
-  else (POk (le_dec (firstn k (pavail s))), mkPin (skipn k (pavail s)) (punder s) (pcnt s)).
+Definition punpack (k : nat) (s : pin) : pyres N * pin :=
+  if Nat.ltb (length (pavail s)) k then (PyFault PStale, s)
+  else (PyOk (le_dec (firstn k (pavail s))), mkPin (skipn k (pavail s)) (punder s) (pcnt s)).
 
 (* read(formatter) *)
-Definition pread_fixed (k : nat) (s : pin) : pres N * pin :=
+Definition pread_fixed (k : nat) (s : pin) : pyres N * pin :=
   if Nat.ltb (length (pavail s)) k then
     match pfill k s with
-    | (POk s1, _) => punpack k s1
-    | (PEof, s1) => (PEof, s1)
-    | (PFault f, s1) => (PFault f, s1)
+    | (PyOk s1, _) => punpack k s1
+    | (PyEof, s1) => (PyEof, s1)
+    | (PyFault f, s1) => (PyFault f, s1)
     end
   else punpack k s.
 
 (* read_view(count) / read_bytearray(count): the same control flow *)
-Definition pread_bytes (n : N) (s : pin) : pres (list N) * pin :=
+Definition pread_bytes (n : N) (s : pin) : pyres (list N) * pin :=
   let rem := length (pavail s) in
   if n <=? N.of_nat rem then
     let c := N.to_nat n in
-    (POk (firstn c (pavail s)), mkPin (skipn c (pavail s)) (punder s) (pcnt s))
+    (PyOk (firstn c (pavail s)), mkPin (skipn c (pavail s)) (punder s) (pcnt s))
   else if N.of_nat bufsize <? n then
     (* local buffer: the buffered bytes, then readinto straight from the stream *)
     let need := n - N.of_nat rem in
-    if N.of_nat (length (punder s)) <? need then (PEof, mkPin [] [] (pcnt s))
+    if N.of_nat (length (punder s)) <? need then (PyEof, mkPin [] [] (pcnt s))
     else
       let c := N.to_nat need in
-      (POk (pavail s ++ firstn c (punder s)), mkPin [] (skipn c (punder s)) (pcnt s))
+      (PyOk (pavail s ++ firstn c (punder s)), mkPin [] (skipn c (punder s)) (pcnt s))
   else
     let c := N.to_nat n in
     match pfill c s with
-    | (POk s1, _) =>
-        if Nat.ltb (length (pavail s1)) c then (PFault PStale, s1)
-        else (POk (firstn c (pavail s1)), mkPin (skipn c (pavail s1)) (punder s1) (pcnt s1))
-    | (PEof, s1) => (PEof, s1)
-    | (PFault f, s1) => (PFault f, s1)
+    | (PyOk s1, _) =>
+        if Nat.ltb (length (pavail s1)) c then (PyFault PStale, s1)
+        else (PyOk (firstn c (pavail s1)), mkPin (skipn c (pavail s1)) (punder s1) (pcnt s1))
+    | (PyEof, s1) => (PyEof, s1)
+    | (PyFault f, s1) => (PyFault f, s1)
     end.
 
-Definition pstep (s : pin) (op : pop) : pres rval * pin :=
+Definition pstep (s : pin) (op : pop) : pyres rval * pin :=
   match op with
   | PByte => match pfetch s with
-             | (POk b, s1) => (POk (VNum b), s1) | (PEof, s1) => (PEof, s1) | (PFault x, s1) => (PFault x, s1) end
+             | (PyOk b, s1) => (PyOk (VNum b), s1) | (PyEof, s1) => (PyEof, s1) | (PyFault x, s1) => (PyFault x, s1) end
   | PVar => match pvar (pfuel_of s) s 0 0 with
-            | (POk v, s1) => (POk (VNum v), s1) | (PEof, s1) => (PEof, s1) | (PFault x, s1) => (PFault x, s1) end
+            | (PyOk v, s1) => (PyOk (VNum v), s1) | (PyEof, s1) => (PyEof, s1) | (PyFault x, s1) => (PyFault x, s1) end
   | PFixed k => match pread_fixed k s with
-                | (POk v, s1) => (POk (VNum v), s1) | (PEof, s1) => (PEof, s1) | (PFault x, s1) => (PFault x, s1) end
+                | (PyOk v, s1) => (PyOk (VNum v), s1) | (PyEof, s1) => (PyEof, s1) | (PyFault x, s1) => (PyFault x, s1) end
   | PBytes n => match pread_bytes n s with
-                | (POk l, s1) => (POk (VBytes l), s1) | (PEof, s1) => (PEof, s1) | (PFault x, s1) => (PFault x, s1) end
+                | (PyOk l, s1) => (PyOk (VBytes l), s1) | (PyEof, s1) => (PyEof, s1) | (PyFault x, s1) => (PyFault x, s1) end
   end.
 
 (* run a script; stops at the first exception *)
-Fixpoint prun (s : pin) (ops : list pop) : list (pres rval) :=
+Fixpoint prun (s : pin) (ops : list pop) : list (pyres rval) :=
   match ops with
   | [] => []
   | op :: rest =>
       match pstep s op with
-      | (POk v, s1) => POk v :: prun s1 rest
+      | (PyOk v, s1) => PyOk v :: prun s1 rest
       | (e, _) => [e]
       end
   end.
@@ -172,19 +172,114 @@ Definition pastep (l : list N) (op : pop) : option (rval * list N) :=
   end.
 
 (* the only way the abstract reader fails is running out of input *)
-Fixpoint parun (l : list N) (ops : list pop) : list (pres rval) :=
+Fixpoint parun (l : list N) (ops : list pop) : list (pyres rval) :=
   match ops with
   | [] => []
   | op :: rest =>
       match pastep l op with
-      | Some (v, r) => POk v :: parun r rest
-      | None => [PEof]
+      | Some (v, r) => PyOk v :: parun r rest
+      | None => [PyEof]
       end
   end.
 
 (* what a caller can tell apart: a value, or an exception (EOFError and the BufferError that replaces it) *)
-Definition pnorm {A} (r : pres A) : pres A :=
+Definition pnorm {A} (r : pyres A) : pyres A :=
   match r with
-  | PFault BufferErr => PEof
+  | PyFault BufferErr => PyEof
   | x => x
+  end.
+
+(* ------------------------------------------------------------------------------------ *)
+(* Output: class CodedOutputStream                                                        *)
+(* self._buffer[0 : _offset] = [pstaged]; every self._stream.write(..) is one element of [pchunks]. *)
+
+Inductive pwfault := IndexErr (* bytearray index out of range *) | StructErr (* struct.error *) | AssertErr.
+
+Inductive pwres (A : Type) := PWOk (a : A) | PWFault (f : pwfault).
+Arguments PWOk {A} a.
+Arguments PWFault {A} f.
+
+Record pout := mkPout {
+  pstaged : list N;
+  pchunks : list (list N)
+}.
+
+Definition pout_init : pout := mkPout [] [].
+
+Inductive pwop :=
+| PWEnsure (n : nat)          (* ensure_capacity(n) *)
+| PWByteNC (b : N)            (* write_byte_no_check(b) *)
+| PWByte (b : N)              (* ensure_capacity(1); write_byte_no_check(b)  - the only way generated code writes a byte *)
+| PWVar (n : N)               (* write_unsigned_varint(n) *)
+| PWFixed (k : nat) (n : N)   (* write(struct of k bytes, n) *)
+| PWBytes (l : list N)        (* write_bytes(l) *)
+| PWDirect (l : list N)       (* write_bytes_directly(l) *)
+| PWFlush.
+
+Section WithBufOut.
+Variable bufsize : nat.
+
+Definition premaining (s : pout) : nat := bufsize - length (pstaged s).
+
+Definition pflush (s : pout) : pout :=
+  match pstaged s with
+  | [] => s
+  | _ => mkPout [] (pchunks s ++ [pstaged s])
+  end.
+
+Definition pensure (n : nat) (s : pout) : pout := if Nat.ltb (premaining s) n then pflush s else s.
+
+Definition pbyte_nc (b : N) (s : pout) : pwres pout :=
+  if negb (b <? 256) then PWFault AssertErr
+  else if Nat.ltb (length (pstaged s)) bufsize then PWOk (mkPout (pstaged s ++ [b]) (pchunks s))
+  else PWFault IndexErr.
+
+Fixpoint pbytes_nc (l : list N) (s : pout) : pwres pout :=
+  match l with
+  | [] => PWOk s
+  | b :: r => match pbyte_nc b s with PWOk s1 => pbytes_nc r s1 | e => e end
+  end.
+
+Definition pwstep (s : pout) (op : pwop) : pwres pout :=
+  match op with
+  | PWEnsure n => PWOk (pensure n s)
+  | PWByteNC b => pbyte_nc b s
+  | PWByte b => pbyte_nc b (pensure 1 s)
+  | PWVar n => pbytes_nc (venc n) (pensure 10 s)
+  | PWFixed k n =>
+      let s1 := pensure k s in
+      if negb (n <? 256 ^ N.of_nat k) then PWFault StructErr
+      else if Nat.ltb bufsize (length (pstaged s1) + k) then PWFault StructErr     (* pack_into past the end *)
+      else PWOk (mkPout (pstaged s1 ++ le_enc k n) (pchunks s1))
+  | PWBytes l =>
+      if Nat.ltb (premaining s) (length l) then
+        let s1 := pflush s in PWOk (mkPout [] (pchunks s1 ++ [l]))
+      else PWOk (mkPout (pstaged s ++ l) (pchunks s))
+  | PWDirect l => let s1 := pflush s in PWOk (mkPout [] (pchunks s1 ++ [l]))
+  | PWFlush => PWOk (pflush s)
+  end.
+
+Fixpoint pwrun (s : pout) (ops : list pwop) : pwres pout :=
+  match ops with
+  | [] => PWOk s
+  | op :: rest => match pwstep s op with PWOk s1 => pwrun s1 rest | e => e end
+  end.
+
+(* close() flushes *)
+Definition pwfinish (ops : list pwop) : pwres (list (list N)) :=
+  match pwrun pout_init ops with
+  | PWOk s => PWOk (pchunks (pflush s))
+  | PWFault x => PWFault x
+  end.
+
+End WithBufOut.
+
+(* the bytes each operation denotes *)
+Definition pwbytes (op : pwop) : list N :=
+  match op with
+  | PWEnsure _ | PWFlush => []
+  | PWByteNC b | PWByte b => [b]
+  | PWVar n => venc n
+  | PWFixed k n => le_enc k n
+  | PWBytes l | PWDirect l => l
   end.
